@@ -261,7 +261,9 @@ def to_trace(hist, hid):
     cfg = hist.cfg
     ids = {}
     ev = [{"e": "Reset", "budget": cfg["budget"], "batch": cfg["batch"], "par": cfg["mode"] == "par",
-           "exact": cfg["family"] in ("localp", "localpb", "wavelet"), "hid": hid}]
+           # hierarchical families load every sample at once when parents come first (sequential order); in the
+           # other cases a sample may wait in the construction buffer, so the loaded points are a subset
+           "exact": cfg["family"] in ("localp", "localpb", "wavelet") and cfg["mode"] == "seq", "hid": hid}]
     for r in hist.rows:
         e = r.get("e")
         if e == "start":
@@ -385,7 +387,7 @@ def validate_chunk(args):
         if r.ok():
             n_ok += len(todo)
             break
-        m = re.search(r'"REJECTED_AT", (\d+)', r.out)
+        m = re.search(r'"REJECTED_AT",\s*(\d+)', r.out)
         inv = None
         if r.violated and r.violated.startswith("T") and r.violated not in ("TInv",) and "Invariant %s is violated" % r.violated in r.out:
             full = r.out[r.out.find("The behavior up to this point is"):]      # (vf keeps only the head of long error traces)
@@ -409,7 +411,7 @@ def validate_chunk(args):
         h, tr = todo[bad]
         local = pos - acc - 1
         diag = {}
-        dm = re.search(r'"REJECTED_AT", \d+, \[([^\]]*)\]', re.sub(r"\s+", " ", r.out))
+        dm = re.search(r'"REJECTED_AT", ?\d+, ?\[([^\]]*)\]', re.sub(r"\s+", " ", r.out))
         if dm and not inv:
             rec = dm.group(1)
             hm = re.search(r"held \|-> \{([^}]*)\}", rec)
@@ -626,7 +628,7 @@ def binding_demo(ctx, wd, hist):
         p = os.path.join(wd, "binding-%s.ndjson" % tag)
         vf.write_ndjson(p, t)
         r = vf.run_tlc("CheckpointTrace.tla", cfgp, workers=1, timeout=300, env={"TRACE": p}, xmx="2g")
-        m = re.search(r'"REJECTED_AT", (\d+)', r.out)
+        m = re.search(r'"REJECTED_AT",\s*(\d+)', r.out)
         if r.timed_out or (r.rc != 0 and not r.violated and not m):
             raise vf.FrameworkError("binding demo: TLC failed\n" + r.out[-2000:])
         return r.ok(), (int(m.group(1)) if m else None)
@@ -749,7 +751,11 @@ def run(ctx):
                                        "one_crash": sum(1 for h in hists if len(h.crashes) == 1),
                                        "two_crashes": sum(1 for h in hists if len(h.crashes) == 2),
                                        "process_lives": sum(len(h.rcs) for h in hists)}
+    import time as _t
+    t_exec = _t.time() - ctx.t0
     n_ok, rejs, left = validate_all(ctx, wd, hists, "all")
+    ctx.extra["wall_s_until_all_histories_executed"] = round(t_exec, 1)
+    ctx.extra["wall_s_trace_validation"] = round(_t.time() - ctx.t0 - t_exec, 1)
     ctx.traces = n_ok
     ctx.extra["histories_unexamined_after_repeated_rejections"] = left
     reported = set()
